@@ -2,7 +2,8 @@
    Print Assumptions beneath.  Definitions: C15/Model.v, C15/LibPercent.v (urllib quote and
    unquote), lib/Utf8.v (codecs, the dance), C15/Gen.v (regenerated: i2u_safe_*, u2i_keep_*,
    gcu_safe_*, dispatch_sep). *)
-From Wz Require Import lib.Bytes lib.Utf8 C15.LibPercent C15.Gen C15.Model C15.Proofs C15.Fixpoint.
+From Wz Require Import lib.Bytes lib.Utf8 C15.LibPercent C15.Gen C15.Model C15.Proofs C15.Fixpoint C15.BuilderModel C15.Builder.
+From Wz Require C02.Model C02.Proofs.
 Open Scope N_scope.
 
 (* DispatcherMiddleware, for every mount table, default application and request path: the
@@ -218,3 +219,44 @@ Theorem C15_current_url_example :
      = Some ([104; 116; 116; 112], [104], [47; 114; 47; 37; 67; 51; 37; 65; 57; 37; 50; 48], Some [97; 61; 37; 50; 51]).
 Proof. exact current_url_example. Qed.
 Print Assumptions C15_current_url_example.
+
+(* EnvironBuilder -> Request, composed: for every Unicode script root R (not ending in a slash),
+   path P and list of query pairs -- the caller writes a literal percent sign of R and P as
+   percent 2 5 (esc_pct), everything else raw -- the environ that EnvironBuilder builds
+   (iri_to_uri, rstrip of the base path, _path_encode = dance of unquote, urlencode of the pairs)
+   is read back by Request as exactly that path, root path and list of pairs (C02's parse_qsl of
+   C02's urlencode: C02_urlencoded_roundtrip), the host without the scheme's default port, and the
+   URL is rebuilt from exactly (scheme, host, R, P, urlencode pairs) *)
+Theorem C15_builder_request : forall scheme netloc R P items,
+  valid_text R = true -> valid_text P = true -> no_trailing_slash R = true ->
+  forallb C02.Proofs.valid_pair items = true ->
+  exists e, builder_environ scheme netloc (esc_pct R) (esc_pct P) items = Some e
+    /\ request_path e = Some P
+    /\ request_root e = Some R
+    /\ request_args e = Some items
+    /\ request_host e = strip_default_port scheme netloc
+    /\ request_uri e = current_uri scheme (strip_default_port scheme netloc) (Some R) (Some P)
+                                   (Some (C02.Model.urlencode items)).
+Proof. exact builder_request. Qed.
+Print Assumptions C15_builder_request.
+
+(* ... and the reconstructed URL (before the final uri_to_iri) splits into the scheme, that host,
+   the quoted root / path, and the urlencoded pairs unchanged (get_current_url's quote leaves
+   them alone), from which the pairs come back.  PARTIAL in its last clause: the path decodes to
+   R / P when neither holds a percent sign (C15_current_url_path_refuted otherwise) *)
+Theorem C15_builder_request_url_partial : forall scheme netloc R P items,
+  valid_text R = true -> valid_text P = true -> no_trailing_slash R = true ->
+  forallb C02.Proofs.valid_pair items = true ->
+  mem 58 scheme = false -> forallb not_delim (strip_default_port scheme netloc) = true ->
+  bounded R = true ->
+  exists e u qr qp,
+    builder_environ scheme netloc (esc_pct R) (esc_pct P) items = Some e
+    /\ request_uri e = Some u
+    /\ quote gcu_safe_root R = Some qr /\ quote gcu_safe_path (lstrip_char 47 P) = Some qp
+    /\ split_uri u = Some (scheme, strip_default_port scheme netloc, qr ++ 47 :: qp,
+                           match C02.Model.urlencode items with [] => None | q => Some q end)
+    /\ C02.Model.parse_qsl (C02.Model.urlencode items) = items
+    /\ (mem PCT R = false -> mem PCT P = false ->
+        utf8_decode (unq_bytes (qr ++ 47 :: qp)) = Some (R ++ 47 :: lstrip_char 47 P)).
+Proof. exact builder_request_url. Qed.
+Print Assumptions C15_builder_request_url_partial.
